@@ -5,7 +5,6 @@ import (
 	"fmt"
 	"reflect"
 	"strconv"
-	"strings"
 
 	"github.com/vektah/gqlparser/v2/ast"
 	"github.com/vektah/gqlparser/v2/gqlerror"
@@ -146,7 +145,7 @@ func (v *varValidator) validateVarType(typ *ast.Type, val reflect.Value) (reflec
 		}
 		isValidEnum := false
 		for _, enumVal := range def.EnumValues {
-			if strings.EqualFold(val.String(), enumVal.Name) {
+			if val.String() == enumVal.Name {
 				isValidEnum = true
 			}
 		}
